@@ -154,6 +154,7 @@ type Machine struct {
 
 	quiesceWaiter *goroutine
 	quiesced      bool
+	quiesceDeadline int64
 	memPoints     bool
 	monitor       func(p *Value, write bool)
 	mon           *monitorState
